@@ -109,10 +109,114 @@ fn rng_threads_fresh(h: &mut Harness) {
     }
 }
 
+/// after fork() parent and child must not hand out the same random bytes (a user-space generator that is not
+/// re-seeded on fork would).  Unix only; the child draws, writes 64 bytes into a pipe and exits at once.
+#[cfg(unix)]
+fn rng_fork_fresh(h: &mut Harness) {
+    use rand::RngCore;
+    extern "C" {
+        fn fork() -> i32;
+        fn pipe(fds: *mut i32) -> i32;
+        fn read(fd: i32, buf: *mut u8, n: usize) -> isize;
+        fn write(fd: i32, buf: *const u8, n: usize) -> isize;
+        fn close(fd: i32) -> i32;
+        fn waitpid(pid: i32, status: *mut i32, options: i32) -> i32;
+        fn _exit(code: i32) -> !;
+    }
+    let mut rng = strand::rnd::StrandRng;
+    let mut warm = [0u8; 16];
+    rng.fill_bytes(&mut warm); // the generator has been used before the fork
+    let mut fds = [0i32; 2];
+    unsafe {
+        if pipe(fds.as_mut_ptr()) != 0 {
+            return;
+        }
+        let pid = fork();
+        if pid == 0 {
+            let mut b = [0u8; 64];
+            let mut r = strand::rnd::StrandRng;
+            r.fill_bytes(&mut b);
+            let _ = write(fds[1], b.as_ptr(), 64);
+            _exit(0);
+        }
+        close(fds[1]);
+        if pid < 0 {
+            close(fds[0]);
+            return;
+        }
+        let mut mine = [0u8; 64];
+        rng.fill_bytes(&mut mine);
+        let mut theirs = [0u8; 64];
+        let mut got = 0usize;
+        while got < 64 {
+            let k = read(fds[0], theirs.as_mut_ptr().add(got), 64 - got);
+            if k <= 0 {
+                break;
+            }
+            got += k as usize;
+        }
+        close(fds[0]);
+        let mut st = 0i32;
+        waitpid(pid, &mut st, 0);
+        if got == 64 {
+            let both = [mine.to_vec(), theirs.to_vec()].concat();
+            h.check(repeated_window(&both, 12).is_none(), || format!("after fork() parent and child draw the same random bytes: parent {:02x?}.. child {:02x?}..", &mine[..12], &theirs[..12]));
+        }
+    }
+}
+#[cfg(not(unix))]
+fn rng_fork_fresh(_h: &mut Harness) {}
+
+/// the mix permutation at a size where "local" shuffling would show: N = 4096 / 20000 positions, 8 x 8 table of
+/// (bucket of the source, bucket of the destination); under a uniform permutation every cell is near N/64
+/// (hypergeometric, sd < sqrt(N/64)); a block-wise or windowed shuffle empties most cells.  Statistical TEST,
+/// bound at 12 sd (false-alarm probability far below 1e-12).
+pub fn permutation_mixes(h: &mut Harness, what: &str) {
+    for nn in [4096usize, 20000] {
+        let perm = strand::shuffler::verif::gen_permutation(nn);
+        let mut sorted = perm.clone();
+        sorted.sort_unstable();
+        h.check(sorted.iter().enumerate().all(|(i, x)| i == *x), || format!("gen_permutation({}) is not a permutation ({})", nn, what));
+        let mut table = [[0f64; 8]; 8];
+        for (k, &src) in perm.iter().enumerate() {
+            table[k * 8 / nn][src * 8 / nn] += 1.0;
+        }
+        let exp = nn as f64 / 64.0;
+        let worst = table.iter().flatten().map(|c| (c - exp).abs() / exp.sqrt()).fold(0.0, f64::max);
+        h.stat_n(&format!("perm_mix_N{}_worst_sd_x100", nn), (worst * 100.0) as u64);
+        h.check(worst < 12.0, || format!("gen_permutation({}) does not mix ({}): some (destination eighth, source eighth) cell deviates {:.1} standard deviations from N/64", nn, what, worst));
+    }
+}
+
 pub fn run<C: NatCtx>(v: &mut Env<C>) {
+    if std::env::var("C18_STATS_ONLY").is_ok() {
+        // the rayon build of the harness (tapes do not reach worker threads, so only the tape-free evaluators run):
+        // freshness of the RNG front-end and uniformity / mixing of the permutation sampler in THAT build
+        if v.small && v.p == big(23) && C::kind() == 'B' {
+            rng_stream_fresh(&mut v.h);
+            rng_threads_fresh(&mut v.h);
+            permutation_mixes(&mut v.h, "rayon build");
+            for nn in [3usize, 4, 5] {
+                let mut counts = std::collections::HashMap::new();
+                let per_cell = 300;
+                let perms = p_shuffle::permutations(nn);
+                for _ in 0..(perms.len() * per_cell) {
+                    *counts.entry(strand::shuffler::verif::gen_permutation(nn)).or_insert(0usize) += 1;
+                }
+                let exp = per_cell as f64;
+                let chi: f64 = perms.iter().map(|pm| { let o = *counts.get(pm).unwrap_or(&0) as f64; (o - exp) * (o - exp) / exp }).sum();
+                let df = (perms.len() - 1) as f64;
+                let thr = df * (1.0 - 2.0 / (9.0 * df) + 7.5 * (2.0 / (9.0 * df)).sqrt()).powi(3);
+                v.h.check(chi < thr && counts.len() == perms.len(), || format!("gen_permutation({}) is not uniform in the rayon build: chi2 = {:.1} > {:.1}", nn, chi, thr));
+            }
+        }
+        return;
+    }
     if v.small && v.p == big(23) && C::kind() == 'B' {
         rng_stream_fresh(&mut v.h);
         rng_threads_fresh(&mut v.h);
+        rng_fork_fresh(&mut v.h);
+        permutation_mixes(&mut v.h, "sequential build");
     }
     if !v.small && v.p.bits() > 100 {
         // exponents drawn on different threads never coincide (two provers on two threads never share a nonce)
